@@ -74,12 +74,13 @@ Definition copy_tb (m : Z) (tb : list frame) : option (list frame) :=
 
 (* A live frame's f_globals / f_locals are ordinary dicts: ANY key may be missing (code run by
    exec(src, {}) / eval has no __name__, no __file__, no __loader__; only __builtins__ is added
-   by the interpreter) and a present key may hold anything.  A value is a str, None, or some
-   other object known by its repr. *)
-Inductive gval := GStr (s : str) | GNone | GOther (r : str).
+   by the interpreter) and a present key may hold anything.  A value is a str, None, some
+   other (picklable) object known by its repr, or an object that does not pickle. *)
+Inductive gval := GStr (s : str) | GNone | GOther (r : str)
+                | GUnp (r : str).   (* an object whose pickling raises; r = repr of what pickle raises *)
 Definition gval_eqb (a b : gval) : bool :=
   match a, b with
-  | GStr x, GStr y | GOther x, GOther y => str_eqb x y
+  | GStr x, GStr y | GOther x, GOther y | GUnp x, GUnp y => str_eqb x y
   | GNone, GNone => true
   | _, _ => false
   end.
@@ -471,6 +472,40 @@ Definition handle_task (mf : Z) (env : nat -> putres) (n : nat) (job i : Z) (o :
   | _ => ([], inl CrAckPut)
   end.
 
+(* ------------------------------------------------------------------ *)
+(* 5b. the stand-in frames' namespace values are pickled with the record *)
+
+(* _Frame copies the RAW values of f_globals["__file__"], f_globals["__name__"] and
+   f_locals["__traceback_hide__"]; pickle.dumps(record) walks __dict__ in the order type, tb,
+   traceback, internal, exception, and the tb chain node by node (frame: f_globals before f_locals) *)
+Definition gval_pickle_err (v : gval) : option str :=
+  match v with GUnp r => Some r | _ => None end.
+Definition ns_pickle_err (d : ns) : option str :=
+  first_some (map (fun kv => gval_pickle_err (snd kv)) d).
+Definition sframe_pickle_err (s : sframe) : option str :=
+  match ns_pickle_err (sf_globals s) with Some r => Some r | None => ns_pickle_err (sf_locals s) end.
+Definition chain_pickle_err (c : list sframe) : option str := first_some (map sframe_pickle_err c).
+Definition record_pickle_err (c : list sframe) (x : pexc) : option str :=
+  match chain_pickle_err c with Some r => Some r | None => exc_pickle_err x end.
+
+(* the put of the task's READY (call S n) fails by itself when the stand-in chain does not pickle *)
+Definition env_ns (env : nat -> putres) (n : nat) (c : list sframe) : nat -> putres :=
+  fun k => if Nat.eqb k (S n) then
+             match env k, chain_pickle_err c with
+             | PutOk, Some r => PutExc r
+             | e, _ => e
+             end
+           else env k.
+
+(* one accepted task that raises, its live traceback given WITH the frames' namespaces *)
+Definition handle_task_ns (rl : Z) (env : nat -> putres) (n : nat) (job i : Z) (t : cls) (x : pexc)
+           (ltb : list lframe) (text : Z) (ptb : list frame) (ptext : Z) : list msg * (crash + nat) :=
+  match copy_ltb (default_max_frames rl) ltb with
+  | Some c => handle_task (default_max_frames rl) (env_ns env n c) n job i
+                          (Raises t x (map lf_fr ltb) text) ptb ptext
+  | None => handle_task (default_max_frames rl) env n job i (Raises t x [] text) ptb ptext
+  end.
+
 (* `while maxtasks is None or (maxtasks and completed < maxtasks)` *)
 Definition loop_guard (maxtasks : option Z) (completed : Z) : bool :=
   match maxtasks with
@@ -656,7 +691,10 @@ Inductive case :=
    stand-in chains (with the stand-in frames' f_globals / f_locals) after 0, 1, ... round trips *)
 | CaseNS (reclimit : Z) (live : list lframe) (obs : list (list sframe))
 (* public attribute names of a real frame / code / traceback object (dir()) *)
-| CaseSlots (fr co tb : list str).
+| CaseSlots (fr co tb : list str)
+(* pickle.dumps of the record built from a live traceback whose namespace values may be
+   unpicklable ([GUnp]; the exception itself pickles): repr of what dumps raised, if it did *)
+| CaseNsPut (reclimit : Z) (live : list lframe) (err : option str).
 
 Definition env_of (l : list putres) (n : nat) : putres := nth n l PutOk.
 
@@ -689,6 +727,11 @@ Definition check_case_gen (fx : bool) (c : case) : Z :=
   | CaseSlots fr co tb =>
       let sub := fun (m o : list str) => forallb (fun a => existsb (str_eqb a) o) m in
       if sub frame_slots fr && sub code_slots co && sub tb_slots tb then 0 else 1
+  | CaseNsPut rl live err =>
+      match copy_ltb (default_max_frames rl) live with
+      | Some c => if opt_eqb str_eqb (chain_pickle_err c) err then 0 else 2
+      | None => 2
+      end
   end.
 Definition check_case : case -> Z := check_case_gen mee_repaired.
 
@@ -722,6 +765,7 @@ Definition monitor_case (c : case) : Z :=
                                                         (firstn (pred (List.length c)) lv)) then 4
                                    else 0) obs)
   | CaseSlots _ _ _ => 0
+  | CaseNsPut _ _ _ => 0
   end.
 
 (* what props/C12.py evaluates: correspondence code + 10 * monitor code *)
